@@ -76,9 +76,22 @@ pub trait RpcApi {
     fn get_raw_transaction_info(&self, txid: &Txid, bh: Option<&bitcoin::BlockHash>) -> Result<RawInfo, Error>;
 }
 
+/// The reachable flag of the tower (set by the harness): while an RPC is in flight another thread (the chain monitor's
+/// failing poll) may lower it before the RPC itself fails. `None` = not modelled.
+pub static mut FLAG: Option<*const (std::sync::Mutex<bool>, std::sync::Condvar)> = None;
+/// Number of times the model lowered the flag "from another thread".
+pub static mut N_FLAG_RACES: u8 = 0;
+
 fn transport_now() -> bool {
     unsafe {
         if TRANSPORT_BUDGET > 0 && kani::any() {
+            if let Some(p) = FLAG {
+                if kani::any() {
+                    // the chain monitor noticed the outage first
+                    *(*p).0.lock().unwrap() = false;
+                    N_FLAG_RACES += 1;
+                }
+            }
             TRANSPORT_BUDGET -= 1;
             N_TRANSPORT += 1;
             true
